@@ -590,6 +590,84 @@ def wrappers(ctx, env, jinja2):
                         ctx.reject({"filter": "round", "value": repr(v)}, f"raised {type(ex).__name__}", None)
 
 
+# ------------------------------------------------------------------ entry-point / spelling / environment / history matrix
+class StrSub(str):
+    """a user str subclass (soft_str keeps it; str() goes through __str__)"""
+    def __str__(self):
+        return str.__str__(self)
+
+
+def matrix(ctx, jinja2):
+    import re
+    import types
+    from markupsafe import Markup
+    from urllib.parse import quote
+    from .filt_matrix import Matrix
+    mx = Matrix(ctx, jinja2)
+    texts = ["", "hello world", "  padded  ", "MiXeD case-word (x)", "a\nb c\r\nd", "é ü ǆ", "<b>x</b> &amp; y", "foo bar baz qux quux corge"]
+    if ctx.tier != "thorough":
+        texts = texts[:2] + texts[3:7:2] + texts[6:]
+    kinds = [("str", str), ("Markup", Markup), ("StrSub", StrSub)]
+    odd = [42, True, None, 3.5, jinja2.Undefined(name="u")]
+    title_re = re.compile(r"([-\s({\[<]+)")
+
+    def ref_title(s):
+        return "".join(item[0].upper() + item[1:].lower() for item in title_re.split(s) if item)
+    try:
+        for t in texts:
+            for kname, K in kinds:
+                v = K(t)
+                plain = kname == "str"
+                for w in (0, 9, 20):
+                    mx.apply("C23", "center", v, (w,), ("width",), expect=(lambda t=t, w=w: t.center(w)) if plain else None)
+                mx.apply("C23", "center", v, (), (), expect=(lambda t=t: t.center(80)) if plain else None)
+                for chars in ((), (None,), (" ",), ("xh d",)):
+                    mx.apply("C23", "trim", v, chars, ("chars",), expect=(lambda t=t, c=chars: t.strip(*c)) if plain else None)
+                for f, ref in (("title", ref_title), ("capitalize", str.capitalize), ("upper", str.upper), ("lower", str.lower),
+                               ("wordcount", lambda x: len(re.findall(r"\w+", x))), ("striptags", lambda x: Markup(x).striptags())):
+                    mx.apply("C23", f, v, (), (), expect=(lambda t=t, ref=ref: ref(t)) if plain else None)
+                for a in (("a", "XY"), (" ", "_", 1), ("l", "L", None), ("o", "0", 0), ("", "-", 2)):
+                    mx.apply("C23", "replace", v, a, ("old", "new", "count"),
+                             expect=(lambda t=t, a=a: t.replace(a[0], a[1], -1 if len(a) < 3 or a[2] is None else a[2])) if plain else None)
+                for a in ((9, False, "...", 0), (5, True, "…", 2), (255, False, "...", None), (12,), (7, True)):
+                    mx.apply("C23", "truncate", v, a, ("length", "killwords", "end", "leeway"))
+                for a in ((10,), (5, True, "\n", False), (7, False, None, True), (79, True, " | ")):
+                    mx.apply("C23", "wordwrap", v, a, ("width", "break_long_words", "wrapstring", "break_on_hyphens"))
+                for a in ((), (2,), (">>", True), (4, False, True), (0, True, True)):
+                    mx.apply("C23", "indent", v, a, ("width", "first", "blank"))
+                mx.apply("C23", "urlencode", v, (), (), expect=(lambda t=t: quote(t, safe="/")) if plain else None)
+        for v in odd:
+            for f in ("center", "trim", "title", "capitalize", "upper", "lower", "wordcount", "striptags", "urlencode", "truncate",
+                      "wordwrap", "indent"):
+                mx.apply("C23", f, v, (), ())
+            mx.apply("C23", "replace", v, ("e", "E"), ("old", "new", "count"))
+        # format: positional arguments, or keyword arguments, not both
+        for K in (str, Markup, StrSub):
+            mx.apply("C23", "format", K("%s-%s|%%"), ("x", 3), (), expect=(lambda: "x-3|%") if K is str else None)
+            mx.apply("C23", "format", K("%(a)s and %(b)05.1f"), {"a": "<x>", "b": 2.25}, (), expect=(lambda: "<x> and 002.2") if K is str else None)
+            mx.apply("C23", "format", K("no placeholders"), (), (), expect=(lambda: "no placeholders") if K is str else None)
+            mx.apply("C23", "format", K("%d"), ("x",), ())
+        # urlencode of mappings and pair iterables
+        for m in ({"ab": 1}, {"a b": "c&d", "x": "é/ü"}, {}):
+            for make in (dict, lambda d: list(d.items()), types.MappingProxyType, lambda d: iter(list(d.items()))):
+                mx.apply("C23", "urlencode", make(dict(m)), (), (), fresh_value=lambda m=m, make=make: make(dict(m)))
+        # numbers
+        for v in (0, 1, 999, 1000, 1024, 10 ** 6, 5 * 1024 ** 3, 10 ** 24, 2.5e6, "2048", True, 1023.9):
+            for a in ((), (False,), (True,)):
+                mx.apply("C23", "filesizeformat", v, a, ("binary",))
+        for v in (42.55, 2.5, -0.5, 7, 1234.5678, True, "3.7"):
+            for a in ((), (0, "common"), (1, "floor"), (2, "ceil"), (-1, "common"), (1,), (0, "bogus")):
+                mx.apply("C23", "round", v, a, ("precision", "method"))
+        for v in ("42", "0x1A", "abc", 3.9, None, True, "1e3", " 7 ", float("inf"), 10 ** 400, [1], Markup("12"), StrSub("13")):
+            for a in ((), (0, 10), (7, 16), (-1, 8), (5,)):
+                mx.apply("C23", "int", v, a, ("default", "base"))
+            for a in ((), (0.5,), ("d",)):
+                mx.apply("C23", "float", v, a, ("default",))
+        mx.history_pass()
+    finally:
+        mx.close()
+
+
 # ------------------------------------------------------------------ regenerated obligations
 LETTER = {"TypeError": "T", "ValueError": "V", "OverflowError": "O"}
 SUPER = {"Exception": "TVO", "BaseException": "TVO", "ArithmeticError": "O"}
@@ -670,6 +748,7 @@ def run(ctx):
     tie_lines(ctx, env)
     tie_filesize(ctx, env)
     wrappers(ctx, env, jinja2)
+    matrix(ctx, jinja2)
 
 
 def replay(ctx, data):
